@@ -372,6 +372,12 @@ def part_A(params, tier, acc):
     for (w, h, dcs, dls) in machine_variants(params["machine"],
                                              params["mesh"], tier):
         mi += 1
+        n_extra = len(dls) - len(base_links(w, h, params["mesh"]))
+        if gi >= len(GRAPHS) and (n_extra and w * h > 4 or
+                                  (dcs and w * h > 6)):
+            # the four-vertex graphs (thorough): link faults only on <= 4
+            # chips, 3x3 fault-free only
+            continue
         m = M(w, h, dcs, dls)
         connected = m.strongly_connected()
         chips = m.chips
@@ -403,11 +409,13 @@ def part_A(params, tier, acc):
                 if tier == "quick":
                     cfgs = [cfgs[(pi + mi) % len(cfgs)],
                             cfgs[(pi + mi + 3) % len(cfgs)]]
-                elif len(dls) > len(base_links(w, h, params["mesh"])) or dcs:
+                elif n_extra or dcs or gi >= len(GRAPHS):
                     # thorough: all 45 configurations on fault-free machines,
-                    # nine (rotating) per placement on faulty ones
-                    cfgs = [cfgs[(pi * 9 + mi + j * 5) % len(cfgs)]
-                            for j in range(9)]
+                    # nine (rotating) per placement on faulty ones (five when
+                    # two links are dead) and for the four-vertex graphs
+                    ncf = 5 if n_extra >= 2 else 9
+                    cfgs = [cfgs[(pi * ncf + mi + j * 5) % len(cfgs)]
+                            for j in range(ncf)]
                 for cfg in cfgs:
                     case = dict(w=w, h=h, dead_chips=[list(c) for c in dcs],
                                 dead_links=[list(l) for l in dls],
@@ -422,7 +430,8 @@ def part_A(params, tier, acc):
                     def run(ch, case=case, cfg=cfg, pl=pl):
                         c2 = dict(case, choices=list(ch.choices))
                         run_pipeline(case, acc, m, graph, pl, cfg, tier, ch)
-                    explore(run, bound=bound if w * h <= 4 else 0,
+                    explore(run, bound=bound if (w * h <= 4 and
+                                                 n_extra <= 1) else 0,
                             budget=400)
         if mi % 25 == 0:
             acc.sample(dict(part="A", machine=[w, h], dead_chips=dcs,
